@@ -86,6 +86,8 @@ def mk_task(spec: Dict[str, Any]) -> ScheduledTask:
     if spec["kind"] == "cron":
         mins = spec["mins"]
         expr = ("*" if len(mins) == 60 else ",".join(str(m) for m in mins)) + " * * * *"
+        if spec.get("bad"):
+            expr = "*/5 * * *"              # a typo: four fields only - this schedule never fires, the others are not affected
         return ScheduledTask(task_name=f"task{tn}", labels=labels, args=PAYLOAD_ARGS + [sid], kwargs=dict(PAYLOAD_KW, sid=sid),
                              schedule_id=f"s{sid}", cron=expr)
     T = B0 + _dt.timedelta(milliseconds=spec["T"])
@@ -154,7 +156,7 @@ class ScriptedSource(ScheduleSource):
             await asyncio.sleep(self.spec["lat"] / 1000.0)
         if fail:
             raise ConnectionError("source down")
-        self.env.rec("listed", src=self.idx, n=n, ids=sorted(self.items))
+        self.env.rec("listed", src=self.idx, n=n, ids=sorted(k for k in self.items if not self.specs.get(k, {}).get("bad")))
         return [self.items[k] for k in sorted(self.items)]
 
     def _sid(self, task: ScheduledTask) -> int:
@@ -314,7 +316,7 @@ def normalize(cfg: Dict[str, Any]) -> Dict[str, Any]:
 def norm_sched(x: Dict[str, Any]) -> Dict[str, Any]:
     return {"sid": x["sid"], "kind": x["kind"], "mins": list(x.get("mins", [])), "T": x.get("T", 0), "cancel": bool(x.get("cancel", False)),
             "naive": bool(x.get("naive", False)), "tn": x.get("tn", 0), "lblsid": bool(x.get("lblsid", False)),
-            "viak": bool(x.get("viak", False)), "tzh": int(x.get("tzh", 0)), "noid": bool(x.get("noid", False))}
+            "viak": bool(x.get("viak", False)), "tzh": int(x.get("tzh", 0)), "noid": bool(x.get("noid", False)), "bad": bool(x.get("bad", False))}
 
 
 def run(scn: Dict[str, Any]) -> List[Dict[str, Any]]:
@@ -323,7 +325,9 @@ def run(scn: Dict[str, Any]) -> List[Dict[str, Any]]:
     env = Env(loop)
     try:
         _install_clock(loop)
-        loop._vnow = cfg["start"] / 1000.0
+        skipfirst = bool(scn["cfg"].get("skipfirst")) and scn["cfg"].get("via") == "cli" and cfg["start"] % 60000 == 0 and cfg["start"] >= 60000
+        # with --skip-first-run the process starts somewhere inside the minute before `start` and must stay silent until then
+        loop._vnow = (cfg["start"] - (scn["cfg"].get("skipoff", 29600) if skipfirst else 0)) / 1000.0
         broker = RecBroker(env, cfg)
         sources = [make_label_source(env, i, s, broker) if scn["cfg"]["srcs"][i - 1].get("label") else ScriptedSource(env, i, s, broker)
                    for i, s in enumerate(cfg["srcs"], start=1)]
@@ -341,7 +345,7 @@ def run(scn: Dict[str, Any]) -> List[Dict[str, Any]]:
             mod = types.ModuleType("verifschedmod")
             mod.scheduler = scheduler  # type: ignore[attr-defined]
             sys.modules["verifschedmod"] = mod
-            args = SchedulerArgs.from_cli(["verifschedmod:scheduler", "--no-configure-logging"])
+            args = SchedulerArgs.from_cli(["verifschedmod:scheduler", "--no-configure-logging"] + (["--skip-first-run"] if skipfirst else []))
             task = loop.create_task(sched_run.run_scheduler(args))
         else:
             task = loop.create_task(sched_run.run_scheduler_loop(scheduler))
@@ -363,9 +367,27 @@ def run(scn: Dict[str, Any]) -> List[Dict[str, Any]]:
                 env.rec("remove", src=src, sid=step[3])
                 sources[src - 1].items.pop(step[3], None)
         loop.advance_to(cfg["horizon"] / 1000.0)
-        env.rec("eot", ok=not task.done())
-        if task.done() and not task.cancelled() and task.exception() is not None:
-            env.rec("loop_raised", s=type(task.exception()).__name__)
+        alive = not task.done()
+        failed = task.done() and not task.cancelled() and task.exception() is not None
+        failure = type(task.exception()).__name__ if failed else ""
+        if scn["cfg"].get("stop_at_end"):
+            # the scheduler is stopped (main coroutine cancelled, then every remaining task, as asyncio.run does)
+            loop._enter()
+            try:
+                task.cancel()
+            finally:
+                loop._leave()
+            loop.settle()
+            loop._enter()
+            try:
+                for t_ in asyncio.all_tasks(loop):
+                    t_.cancel()
+            finally:
+                loop._leave()
+            loop.settle()
+        env.rec("eot", ok=alive)
+        if failed:
+            env.rec("loop_raised", s=failure)
         env.closed = True
         return env.events
     finally:
